@@ -414,6 +414,7 @@ class Sim:
         self.criteria[tr["name"]].verdict = bool(tr["verdict"])
         for _ in self.mc.step():
             pass
+        self.mc.step_count += 1          # as `irun` does after every step: the simulation has a history when the next run starts
         (name, verdict), = self.mc.move_history
         return {True: "T", False: "F", None: "N"}[verdict]
 
